@@ -152,6 +152,20 @@ def property_checks(inp):
         n0 = int(numpy.array(scc.MASKS[cfg["masks"][0]]).sum())
         Kb = M[2 * n0:, 2 * n0:]
         cb = numpy.linalg.cond(Kb)
+        # what the reconstructor is built from must be the slopes' covariance: the x-x and y-y blocks of every sensor pair
+        # (the blocks no open finding of C01 touches for equal sub-aperture sizes and point-symmetric masks) against the
+        # independent finite-difference von Karman reference -- a misplaced or wrongly assembled block cannot hide behind
+        # the conditioning guard below
+        Sp = scc.spec_matrix(cfg)
+        ns_ = [int(numpy.array(scc.MASKS[m]).sum()) for m in cfg["masks"]]
+        off_ = numpy.concatenate([[0], 2 * numpy.cumsum(ns_)])
+        sel = numpy.zeros(M.shape, dtype=bool)
+        for i_ in range(len(ns_)):
+            for j_ in range(len(ns_)):
+                sel[off_[i_]:off_[i_] + ns_[i_], off_[j_]:off_[j_] + ns_[j_]] = True
+                sel[off_[i_] + ns_[i_]:off_[i_] + 2 * ns_[i_], off_[j_] + ns_[j_]:off_[j_] + 2 * ns_[j_]] = True
+        A(("x-x and y-y blocks of the matrix the reconstructor is built from = covariance of the slopes (every sensor pair)",
+           float(numpy.abs((M - Sp)[sel]).max() / numpy.abs(Sp).max()) if M.shape == Sp.shape else float("inf"), 3e-6))
         if cb < 1e5:      # the matrix is stored in binary32: only well-conditioned geometries decide the clause
             Rb = sc.create_tomographic_covariance_reconstructor(M, n0, 0)
             Eb = numpy.zeros_like(Rb); Eb[numpy.arange(2 * n0), numpy.arange(2 * n0)] = 1
